@@ -22,7 +22,7 @@ BUDGET = {
 RULE = (
     "cases: a sender (either side) emits 0-8 items and ends by end-of-body / raise / explicit close of a sub-channel / "
     "SIGKILL at a generated point (also of a proxied sub); the endmarker value varies (object, None, 0, False, ''); the "
-    "receiver may drop its channel object or close it locally before setcallback; the receiver first takes 0-k items with receive(), then calls setcallback (with or "
+    "receiver may drop its channel object or close it locally before setcallback; a second task of the receiving side may close() the channel while the peer's end is on its way; the callback may close() its channel on the endmarker; a sub-channel's peer end may be dropped with a callback (last-message) instead of closed; the receiver first takes 0-k items with receive(), then calls setcallback (with or "
     "without endmarker) early, after m items were sent, or after the sender has finished, then probes receive(); plus "
     "MultiChannel.make_receive_queue over 2-3 gateways; transports popen/bare/socket/proxy, small pipes, schedules with "
     "0-3 line preemptions.  Non-trivial = at least one callback invocation under a schedule with real choices."
